@@ -15,7 +15,10 @@ IMPLEMENTATION's observation lines:
   * the can_enforce answer given immediately before an enforce with the same arguments agrees
     with the outcome of that enforce (when the account authorized it);
   * every accepted state-changing call was authorized by the account itself;
-  * a rejected call (and every can_enforce) leaves all getters unchanged and emits no event.
+  * a rejected call (and every can_enforce) leaves all getters unchanged and emits no event;
+  * long idle periods (`pol idle`: ledger moved by days/months with no policy call, then every
+    getter re-read) change nothing (`site=policy.idle.changed`), and the window check above keeps
+    counting spends made before the gap.
 -/
 namespace OZ.Drv.C14
 open OZ.Drv OZ.Policies OZ.Host
@@ -116,6 +119,13 @@ def showSpendEv : Spend.Event → String
 def stepLine (m : M) (ln : String) : M × String :=
   let ws := words ln
   match ws with
+  | ["pol", "idle", n] =>
+    -- a long idle period is nothing but a ledger advance for the model: persistent state stays
+    match kvNat? [n] "n" with
+    | some k =>
+      let m' := { m with l := { m.l with now := m.l.now + k } }
+      (m', line m' "ok" "-" "-" "-")
+    | none => (m, "bad-op")
   | ["pol", "adv", n] =>
     match kvNat? [n] "n" with
     | some k =>
@@ -277,7 +287,13 @@ def check (m : Mon) (opl obs : String) : Mon × Option String :=
   | some o =>
     let ws := words opl
     let prev : Obs := m.prev.getD { o with S := [], W := [], L := [], stateStr := "S=- W=- L=-" }
-    if ws.take 2 = ["pol", "adv"] then
+    if ws.take 2 = ["pol", "idle"] then
+      -- every getter was re-read after a long period without any policy call
+      ({ m with prev := some o, lastCan := none },
+        if o.stateStr ≠ prev.stateStr then
+          some s!"site=policy.idle.changed a threshold, weight map or spending-limit entry changed or vanished while the policies were idle: before {prev.stateStr.take 160} after {o.stateStr.take 160}"
+        else stateChecks o)
+    else if ws.take 2 = ["pol", "adv"] then
       ({ m with prev := some o, lastCan := none },
         if o.stateStr ≠ prev.stateStr then some "site=policy.adv a ledger advance changed policy state" else stateChecks o)
     else
